@@ -185,7 +185,7 @@ fn c10_writer_frac_millis() {
     frac_check(3)
 }
 
-// @ob tier=thorough timeout=5400 mem=20
+// @ob tier=extra timeout=5400 mem=20
 // @desc RFC 3339 writer, microsecond fractions: every fraction that is a whole number of microseconds but not of milliseconds prints exactly six digits equal to it
 // @bounds all such fractions; date, clock time and offset concrete (did not finish within the 900 s quick cap: core::fmt's decimal conversion of a 20-bit symbolic value with zero padding)
 // @funcs write_rfc3339 (SecondsFormat::AutoSi fraction), core::fmt zero padding
@@ -195,7 +195,7 @@ fn c10_writer_frac_micros() {
     frac_check(6)
 }
 
-// @ob tier=thorough timeout=5400 mem=20
+// @ob tier=extra timeout=5400 mem=20
 // @desc RFC 3339 writer, nanosecond fractions: every fraction that is not a whole number of microseconds prints exactly nine digits equal to it
 // @bounds all such fractions; date, clock time and offset concrete (did not finish within the 900 s quick cap)
 // @funcs write_rfc3339 (SecondsFormat::AutoSi fraction), core::fmt zero padding
